@@ -482,6 +482,7 @@ class Parser:
             self.eat()
             where = self.expr()
         order_by, limit = False, None
+        order_toks = []
         if self.at("kw", "ORDER"):
             self.eat()
             self.eat("kw", "BY")
@@ -489,6 +490,7 @@ class Parser:
             depth = 0
             while not (self.at("eof") or (depth == 0 and (self.at("kw", "LIMIT") or self.at("op", ";") or self.at("op", ")")))):
                 tk = self.eat()
+                order_toks.append(tk)
                 if tk[0] == "par":
                     raise Unsupported("SQL: placeholder in ORDER BY")
                 if tk == ("op", "("):
@@ -502,7 +504,7 @@ class Parser:
                 raise Unsupported("SQL: LIMIT with an offset is outside the supported fragment")
         if sub and not self.at("op", ")"):
             raise Unsupported("SQL: trailing clause %r in a sub-select is outside the supported fragment" % (self.peek(),))
-        return dict(cols=cols, root=root, joins=joins, where=where, order_by=order_by, limit=limit)
+        return dict(cols=cols, root=root, joins=joins, where=where, order_by=order_by, limit=limit, order_toks=order_toks)
 
     def table_ref(self):
         name = self.eat("id")[1]
@@ -873,7 +875,33 @@ def translate(spec, schema, gosrc, imports, q, probe_results):
             got_sets = sorted("%s=%s" % (c, "NULL" if v[0] == "null" else "?" if v[0] == "param" else str(v[1])) for c, v in st["sets"])
             if want_sets is None or sorted(want_sets) != got_sets:
                 raise Unsupported("%s: the UPDATE sets %s, the model expects %s" % (fn, got_sets, want_sets))
-    if sel["order_by"] or sel["limit"] is not None:
+    order_key = None
+    if q.get("limit") == "top-desc":
+        # ... WHERE p ORDER BY <column> DESC LIMIT n: the n rows with the greatest <column> among those that
+        # satisfy p (SqlJoin.v sql_top_desc).  The ORDER BY decides WHICH rows are hit: it is part of the selection.
+        toks = sel.get("order_toks") or []
+        if not sel["order_by"] or sel["limit"] is None:
+            raise Unsupported("%s: the model expects ORDER BY <column> DESC LIMIT n (the n greatest), the statement has %s" % (
+                fn, "no ORDER BY" if not sel["order_by"] else "no LIMIT"))
+        names = [t for t in toks if t[0] == "id"]
+        rest = [t for t in toks if t[0] != "id" and t != ("op", ".")]
+        if not (1 <= len(names) <= 2 and rest == [("kw", "DESC")]):
+            raise Unsupported("%s: ORDER BY must be a single column, DESC (found: %s)" % (fn, " ".join(str(t[1]) for t in toks) or "-"))
+        ocol = names[-1][1]
+        if len(names) == 2 and names[0][1] != root[1]:
+            raise Unsupported("%s: ORDER BY column %s.%s is not a column of %s" % (fn, names[0][1], ocol, root[0]))
+        want_col = q.get("order_column")
+        if ocol not in schema[root[0]] or (want_col and ocol != want_col):
+            raise Unsupported("%s: ORDER BY %s, the model expects %s of %s" % (fn, ocol, want_col or "a column", root[0]))
+        if not schema[root[0]][ocol].get("notnull"):
+            raise Unsupported("%s: ORDER BY column %s may be NULL" % (fn, ocol))
+        lim = em.operand(sel["limit"])
+        if lim["kind"] != "int" or lim["val"] < 1:
+            raise Unsupported("%s: LIMIT must be a positive constant (found %s)" % (fn, lim.get("go") or lim.get("val") or lim["kind"]))
+        order_key = ocol
+        em.cols_used.add((root[0], ocol)) if isinstance(em.cols_used, set) else em.cols_used.append((root[0], ocol))
+        notes.append("ORDER BY %s DESC LIMIT %d: the rows hit are the (at most) %d rows with the greatest %s among the selected ones (sql_top_desc)" % (ocol, lim["val"], lim["val"], ocol))
+    elif sel["order_by"] or sel["limit"] is not None:
         mode = q.get("limit")
         if mode not in ("batch", "pick-one"):
             raise Unsupported("SQL: trailing clause ORDER BY/LIMIT is outside the supported fragment (it could change which rows are selected)")
@@ -949,6 +977,8 @@ def translate(spec, schema, gosrc, imports, q, probe_results):
     text += "Definition %s (c : %s)%s %s : bool :=\n  %s.\n" % (q["name"], rowty, tsig, sig, inner)
     chk = " && ".join("u64_bindable %s" % s[0] for s in order if s[2] in ("uint64", "uint")) or "true"
     text += "Definition %s_bindable %s : bool := %s.\n" % (q["name"], sig, chk)
+    if order_key is not None:
+        text += "Definition %s_key (c : %s) : option Z := col_%s_%s c.\n" % (q["name"], rowty, root[0], order_key)
     return text, em.cols_used, [s[0] for s in order]
 
 
